@@ -36,6 +36,7 @@ fn main() {
                 "C02" => checks::c02::run(&tier, seed),
                 "C04" => checks::c04::run(&tier, seed),
                 "C05" => checks::c05::run(&tier, seed),
+                "C06" => checks::c06::run(&tier, seed),
                 "C07" => checks::c07::run(&tier, seed),
                 _ => {
                     eprintln!("unknown property {id}");
@@ -53,6 +54,7 @@ fn main() {
                 "C02" => checks::c02::replay(&doc),
                 "C04" => checks::c04::replay(&doc),
                 "C05" => checks::c05::replay(&doc),
+                "C06" => checks::c06::replay(&doc),
                 "C07" => checks::c07::replay(&doc),
                 _ => {
                     eprintln!("unknown property in replay file");
